@@ -860,10 +860,12 @@ func (e *Engine) merge2x(a, b *State, base int) (*State, string) {
 				}
 			}
 		}
-		top := n.frames[len(n.frames)-1]
-		for r := range top.regs {
-			if top.regs[r] != nil {
-				top.regs[r] = e.rewriteRefs(top.regs[r], mc.uni)
+		if len(n.frames) > 0 {
+			top := n.frames[len(n.frames)-1]
+			for r := range top.regs {
+				if top.regs[r] != nil {
+					top.regs[r] = e.rewriteRefs(top.regs[r], mc.uni)
+				}
 			}
 		}
 		if n.ret != nil {
